@@ -200,7 +200,14 @@ func (r *c5Run) refLogger(m c5Model, w io.Writer) zerolog.Logger {
 	}
 	lg := c.Logger()
 	for _, h := range m.hooks {
-		lg = lg.Hook(c5Hook{r, h})
+		switch h {
+		case "@timestamp":
+			lg = lg.With().Timestamp().Logger()
+		case "@caller":
+			lg = lg.With().Caller().Logger()
+		default:
+			lg = lg.Hook(c5Hook{r, h})
+		}
 	}
 	lg = lg.Level(m.level)
 	if m.sampler != 0 {
@@ -334,7 +341,18 @@ func (r *c5Run) derive(p *c5Node) *c5Node {
 	ch := r.ch
 	m := p.m.clone()
 	tag := fmt.Sprintf("n%d_", len(r.nodes))
-	switch ch.Weighted(6, 2, 2, 3, 3, 2, 1, 3) {
+	switch ch.Weighted(6, 2, 2, 3, 3, 2, 1, 3, 1, 1) {
+	case 8:
+		// Timestamp() and Caller() on a Context are implemented as hooks
+		m.hooks = append(m.hooks, "@timestamp")
+		n := r.addNode(p.lg.With().Timestamp().Logger(), m, fmt.Sprintf("n%d.With().Timestamp()", p.id))
+		n.fromWith = true
+		return n
+	case 9:
+		m.hooks = append(m.hooks, "@caller")
+		n := r.addNode(p.lg.With().Caller().Logger(), m, fmt.Sprintf("n%d.With().Caller()", p.id))
+		n.fromWith = true
+		return n
 	case 0:
 		ops := r.genCtxOps(tag)
 		c := p.lg.With()
@@ -454,6 +472,12 @@ func (r *c5Run) worker(nOps int) func() {
 				r.lateUpdate(n)
 			case 0:
 				r.derive(n)
+				if ch.Chance(1, 3) {
+					// a sibling from the same parent right away: both children start from
+					// the same slices (context bytes, hooks) of the parent
+					r.derive(n)
+					zsim.Probe("sibling_burst")
+				}
 			case 1:
 				ev := r.genEvent()
 				r.emitChecked(r.open(&n.lg, ev), ev, n.m, fmt.Sprintf("node %d", n.id))
